@@ -45,7 +45,8 @@ def instantiate(d):
         k = sum(act)
         return "empty" if k == 0 else ("single" if k == 1 else "multi")
 
-    return emission.Inst(declare, emit, pred, classify)
+    from bounded import graphprops
+    return emission.Inst(declare, emit, pred, classify, alphas=(lambda caller: graphprops.deep_alphas(d)) if d.get("deep") else None)
 
 
 def descs(tier):
@@ -70,7 +71,8 @@ def descs(tier):
 
 
 def bounded(tier, seed, rep):
-    emission.run_parallel(rep, PROP, MOD, descs(tier))
+    from bounded import graphprops
+    emission.run_parallel(rep, PROP, MOD, list(descs(tier)) + graphprops.deep_descs(PROP, tier))
 
 
 def replay(payload):
